@@ -16,6 +16,10 @@ Open Scope R_scope.
 '''
 
 
+NOT_LOADABLE = re.compile(r'Cannot find a physical path|Cannot load|Unable to locate library|Compiled library .* makes inconsistent assumptions|'
+                          r'The reference [\w\.]+ was not found in the current environment|Cannot find library|Syntax error')
+
+
 def tol_for(y, rel=1e-7):
     return rel * (1.0 + abs(y))
 
@@ -55,6 +59,7 @@ def run_interval_cases(ctx, prefix, imports, goals, per_file=20, timeout=900):
             ctx.write(r1, CASE_HDR.format(imports=imports) +
                       interval_goal(f'case_{k + j}', g['term'], g['y'], g['tol'], g['unfolds'], g.get('tactic', 'corr')))
             single.append((r1, g, k + j))
+    unloadable = []
     if single:
         res = ctx.compile_parallel([s[0] for s in single], timeout=timeout)
         for (r1, g, idx), r in zip(single, res):
@@ -64,6 +69,13 @@ def run_interval_cases(ctx, prefix, imports, goals, per_file=20, timeout=900):
                 err = '\n'.join(l for l in (r['err'] or r['out']).split('\n') if 'Warning' not in l)[-600:]
                 if r['rc'] == 124:
                     err = 'TIMEOUT ' + err
+                if NOT_LOADABLE.search(err):
+                    # the generated model itself could not be loaded (a broken translation upstream): that is already a failed
+                    # obligation of its own; a goal that cannot even be stated is not a disagreement between model and implementation
+                    if not unloadable:
+                        ctx.obligations.append({'name': f'{prefix}:model-not-loadable', 'ok': False, 'kind': 'correspondence', 'detail': err})
+                    unloadable.append(idx)
+                    continue
                 ctx.obligations.append({'name': f'{prefix}:case_{idx}', 'ok': False, 'kind': 'correspondence',
                                         'detail': f"{g.get('meta')}: {err}"})
                 failed.append((g, err))
